@@ -44,7 +44,23 @@ static inline cstring *cstring__lit(const char *p) { g_lit.len = 5; g_lit.id = _
 /* A7 BlockTable<T> as seen by CdnsBlock: a sequence in index order (its own implementation: bt.* units) */
 #define DECL_BT(N, T) DECL_SEQ_(bt_, N, T) \
   static inline unsigned long BlockTable_##N##__size(struct bt_##N *s) { return s->n; } \
-  static inline void BlockTable_##N##__clear(struct bt_##N *s) { s->n = 0; }
+  static inline void BlockTable_##N##__clear(struct bt_##N *s) { s->n = 0; } \
+  /* executable forms of the btr.<T>.* contracts (BlockTable<T> itself is discharged there) */ \
+  static inline T *BlockTable_##N##__op_index(struct bt_##N *s, unsigned int pos) { \
+    if (g_exc) return &bt_##N##__cur; \
+    if ((unsigned long)pos >= s->n) { g_exc = EXC_runtime_error; return &bt_##N##__cur; } \
+    return bt_##N##__at(s, pos); } \
+  static inline unsigned int BlockTable_##N##__add_value__p_##N(struct bt_##N *s, T *v) { \
+    if (g_exc) return 0; if (g_bt_adds < 1000) g_bt_adds++; bt_##N##__push_back(s, v); return (unsigned int)(s->n - 1); } \
+  static inline _Bool BlockTable_##N##__find(struct bt_##N *s, void *key, unsigned int *index) { \
+    if (g_exc) return 0; if (g_bt_finds < 1000) g_bt_finds++; g_bt_key = (void *)key; \
+    if (!g_bt_present) return 0; \
+    __CPROVER_assume(g_bt_pidx < s->n); *index = (unsigned int)g_bt_pidx; return 1; } \
+  static inline unsigned int BlockTable_##N##__add(struct bt_##N *s, T *v) { \
+    unsigned int r = 0; if (g_exc) return 0; \
+    if (!BlockTable_##N##__find(s, v, &r)) r = BlockTable_##N##__add_value__p_##N(s, v); \
+    return r; }
+_Bool g_bt_present; unsigned long g_bt_pidx, g_bt_finds, g_bt_adds; void *g_bt_key;
 /* A8 std::unordered_map as used by CdnsBlock (address event counts): find(k) returns an entry whose key equals k if there is one
    (null = end()); operator[](k) returns the mapped value of that entry, inserting a new entry (size + 1) if there was none.
    Whether k is present is arbitrary but consistent between the find and the operator[] of one add call (ghost umap_present). */
